@@ -501,22 +501,23 @@ def foldingRanges (fx : Fixes) (doc : Txt) (j : Journal) : List Fold :=
 
 def isDigitC (c : Char) : Bool := '0' ≤ c && c ≤ '9'
 
-/-- `CompletionContextType` as sent by the harness (1 account, 2 payee, 3 commodity). -/
+/-- `CompletionContextType` as sent by the harness (1 account, 2 payee, 3 commodity, 4 tag name). -/
 def ctxOf : Nat → HL.Completion.Ctx
   | 1 => .account
   | 2 => .payee
   | 3 => .commodity
+  | 4 => .tagName
   | _ => .unknown
 
-/-- `calculateTextEditRange` (as repaired upstream by a42bf24: it looks at the text before the
-    cursor only).  The line-level function is the completion builder's transcription
-    `HL.Completion.editRange true` (HL/Model/Completion.lean); here it is placed on the cursor's
-    line and converted to `uint32`. -/
+/-- `calculateTextEditRange` (as repaired: it looks at the text before the cursor only and cuts
+    where `extractQueryText` cuts).  The line-level function is the completion builder's
+    transcription `HL.Completion.editRange` (HL/Model/Completion.lean); here it is placed on the
+    cursor's line and converted to `uint32`. -/
 def textEditRange (doc : Txt) (c : Cur) (ctx : Nat) : Option LRange :=
   match (lines doc)[c.line]? with
   | none => none
   | some line =>
-    (HL.Completion.editRange true (ctxOf ctx) line c.char).map fun se =>
+    (HL.Completion.editRange (ctxOf ctx) line c.char).map fun se =>
       ⟨UInt32.ofNat c.line, UInt32.ofNat se.1, UInt32.ofNat c.line, UInt32.ofNat c.char⟩
 
 /-- `Completion`: the edit range carried by the items (none when there are no items). -/
